@@ -27,10 +27,10 @@ class KeyframeSelector(Node):
         returns:
             self
         """
-        self.keyframe, = [
+        # one selector, or a list of them (`0%, 50% {...}`)
+        self.keyframe = ','.join(
             e[0] if isinstance(e, tuple) else e for e in self.tokens
-            if str(e).strip()
-        ]
+            if str(e).strip())
         self.subparse = False
         return self
 
